@@ -175,6 +175,8 @@ type TraceConfig struct {
 	MayPanic func(e *Event) bool
 	// Devirt resolves an interface invoke or a call through a function value to a concrete function.
 	Devirt func(call *ssa.CallCommon, recv *Sym) *ssa.Function
+	// Havoc: opaque calls that must be treated as changing memory whatever the built-in table says.
+	Havoc func(e *Event) bool
 	// NoHavoc: opaque calls that leave memory alone in addition to the built-in table.
 	NoHavoc func(e *Event) bool
 	// RecordAllLoads records loads of every cell (default: field, index and global cells only)
